@@ -117,6 +117,22 @@ def build_T11f(tree):
                                  [('frame_offset', 'int')], {'self._first_frame_offset': ('int', 'firstFrameOffset')},
                                  doc='`read_frame_raw`: absolute position the reader seeks to for a frame'))
     shas.append(span_sha([fo, sk]))
+    # _read_metadata, native branch: where the first frame starts (header of the Pixel Data element: implicit / explicit VR)
+    fnm = find_func(tree, 'ImageFileReader._read_metadata')
+    encm = _one([n for n in ast.walk(fnm) if isinstance(n, ast.If) and ast.unparse(n.test) == 'self.transfer_syntax_uid.is_encapsulated'],
+                '_read_metadata encapsulated test')
+    hdr = [x for x in encm.orelse if isinstance(x, ast.If) and ast.unparse(x.test) == 'self._fp.is_implicit_VR']
+    ffo2 = [x for x in encm.orelse if isinstance(x, ast.Assign) and ast.unparse(x.targets[0]) == 'self._first_frame_offset']
+    if len(hdr) != 1 or len(ffo2) != 1 or encm.orelse.index(ffo2[0]) != encm.orelse.index(hdr[0]) + 1:
+        raise Unsupported('_read_metadata: native header offset block changed')
+    blk = [hdr[0], ast.Return(value=ffo2[0].value)]
+    for x in blk:
+        ast.fix_missing_locations(x)
+    texts.append(translate_block(blk, 'nativeFirstFrameOffset', [], {'self._fp.is_implicit_VR': ('bool', 'isImplicitVR'),
+                                                                       'self._pixel_data_offset': ('int', 'pixelDataOffset')},
+                                 doc='`_read_metadata`, native branch: file position of the first byte of the pixel data VALUE (element position + '
+                                     'header: tag 4 + length 4 for implicit VR, tag 4 + VR 2 + reserved 2 + length 4 for explicit VR)'))
+    shas.append(span_sha([hdr[0], ffo2[0]]))
     # ImageFileReader.__init__: which argument types are an open file object, which a path; everything else is a TypeError
     fn = find_func(tree, 'ImageFileReader.__init__')
     top = _one([n for n in fn.body if isinstance(n, ast.If) and ast.unparse(n.test).startswith('isinstance(filename,')], 'reader constructor dispatch')
